@@ -3081,6 +3081,12 @@ psf_open_file (SF_PRIVATE *psf, SF_INFO *sfinfo)
 
 		/* File is open, so get the length. */
 		psf->filelength = psf_get_filelen (psf) ;
+
+		/* An existing file whose length cannot be found can neither be parsed nor safely treated as empty. */
+		if (psf->filelength < 0 && psf->file.mode != SFM_WRITE)
+		{	error = psf->error ? psf->error : SFE_SYSTEM ;
+			goto error_exit ;
+			} ;
 		} ;
 
 	if (psf->fileoffset > 0)
